@@ -30,7 +30,8 @@ func runVisitors(cfg *hx.RunCfg) error {
 			seen[c] = true
 			// non-trivial: at least one visitor request in the history
 			if strings.Contains(c, "VmNewConn") || strings.Contains(c, "NhVisitor") || strings.Contains(c, "SVisitorConn") ||
-				strings.Contains(c, "SNatHole") || strings.HasPrefix(c, "CE2E") {
+				strings.Contains(c, "SNatHole") || strings.HasPrefix(c, "CE2E") || strings.HasPrefix(c, "CCfg") ||
+				strings.HasPrefix(c, "CXtcp") || strings.HasPrefix(c, "CFirst") {
 				nontrivial++
 			}
 		}
